@@ -941,8 +941,11 @@ class Summarizer:
                 self.emit('del', self.text(t, st), st, s)
             return [st]
         if isinstance(s, ast.Assert):
+            tv = self.val(s.test, st)
+            for c in conjuncts(hoist(tv)):
+                self.emit('assert', canon(c), st, s, rhs=c)
             s2 = st.fork()
-            s2.guards.append(self.guard(self.val(s.test, st)))
+            s2.guards.append(self.guard(tv))
             return [s2]
         if isinstance(s, ast.If):
             tv = self.val(s.test, st)
